@@ -328,6 +328,25 @@ pub fn run(a: &Args) {
             case(&mut st, &c, "large_capacity");
         }
     }
+    // LONG RUNS on one object: > 2^16 frames and several thousand refills through one Buffered (whatever bookkeeping
+    // an implementation keeps per refill or per frame — counters, generation stamps — must not wrap into a wrong answer)
+    // (two cases only: the list-based Lean model reads source position i in O(i))
+    for &cap in &[1usize, 48] {
+        let n = 65_600 + rng.usize_below(300);
+        let start = rng.usize_below(cap);
+        let len = rng.usize_below(cap + 1);
+        let mut ops = Vec::new();
+        let mut used = 0usize;
+        while used < n + len {
+            let op = match rng.below(6) { 0 | 1 => Op::Drain, 2 => Op::Frames(rng.usize_below(cap + 2)), 3 => Op::Nth(rng.usize_below(cap)), 4 => Op::Next, _ => if cap < 8 { Op::Frames(cap) } else { Op::Drain } };
+            used += match op { Op::Next => 1, Op::Frames(k) => k.max(1), Op::Nth(k) => k + 1, Op::Drain => cap, _ => 1 };
+            ops.push(op);
+            if ops.len() > 90_000 { break; }
+        }
+        ops.push(Op::Look); ops.push(Op::Until); ops.push(Op::Look);
+        let c = Case { cap, start, prefill: rand_vals(&mut rng, len, -5000), src: rand_vals(&mut rng, n, 1000), ops, leak: cap == 48 };
+        case(&mut st, &c, "long_run_gt_65536_frames");
+    }
     st.exhaustive = false;
     st.finish();
 }
